@@ -19,7 +19,7 @@ import sys
 import time
 
 ROOT = os.path.dirname(os.path.dirname(os.path.abspath(__file__)))
-REPO = "/repo"
+REPO = "/repo"   # (tools/parmut.sh rewrites this line in its scratch copies)
 CACHE = ROOT + "/.cache"
 OUT = ROOT + "/out"
 COQ = ROOT + "/coq"
@@ -426,7 +426,7 @@ def surface_check(prop=None):
         if ln.startswith("#") or not ln.strip():
             continue
         have.add(ln.split("\t")[0])
-    cur = surface.surface()
+    cur = surface.surface(REPO + "/src")
     missing = [e for e in cur if e not in have]
     if prop in (None, "C05"):
         return missing
@@ -457,15 +457,15 @@ def nostd_check():
     When the nightly toolchain can expand the crate, the expansion must carry #![no_std] too.
     returns (ok, text)"""
     for feats in ("", "serde", "std", "serde std"):
-        r2 = sh("cd /repo && CARGO_TARGET_DIR=" + CACHE + "/target-nostd cargo build --lib --offline --no-default-features"
+        r2 = sh("cd " + REPO + " && CARGO_TARGET_DIR=" + CACHE + "/target-nostd cargo build --lib --offline --no-default-features"
                 + (f' --features "{feats}"' if feats else "") + " 2>&1", timeout=900)
         if r2.returncode != 0:
             return False, f"cargo build --lib --no-default-features --features '{feats}' failed:\n" + r2.stdout[-1500:]
-    lib = open("/repo/src/lib.rs").read()
+    lib = open(REPO + "/src/lib.rs").read()
     if not re.search(r'#!\[cfg_attr\(\s*all\(not\(feature = "std"\), not\(doc\), not\(test\)\),\s*no_std\s*\)\]', lib):
         return False, "src/lib.rs no longer declares no_std outside std/doc/test"
     code = ""
-    for dp, _, fs in os.walk("/repo/src"):
+    for dp, _, fs in os.walk(REPO + "/src"):
         for f in sorted(fs):
             if f.endswith(".rs"):
                 code += rust_code_only(open(os.path.join(dp, f)).read()) + "\n"
@@ -473,7 +473,7 @@ def nostd_check():
     if bad:
         return False, "the library code names std/alloc: " + ", ".join(sorted(set(bad))[:6])
     note = "no_std build ok (plain build + source scan)"
-    r = sh("cd /repo && CARGO_TARGET_DIR=" + CACHE + "/target-nostd cargo +nightly rustc --lib --offline -- -Zunpretty=expanded 2>/dev/null",
+    r = sh("cd " + REPO + " && CARGO_TARGET_DIR=" + CACHE + "/target-nostd cargo +nightly rustc --lib --offline -- -Zunpretty=expanded 2>/dev/null",
            timeout=900)
     if r.returncode == 0 and "prelude_import" in r.stdout:
         if "#![no_std]" not in r.stdout or re.search(r"extern crate (std|alloc)\b", r.stdout):
